@@ -628,6 +628,36 @@ def none_text_witness():
     return {"pgn": 130323, "payload": a.hex()}, {"pgn": 130323, "payload": b.hex()}
 
 
+def _lau_key_pairs():
+    """text-valued key fields (STRING_LAU): pairs of messages whose key texts differ only in non-ASCII characters (UTF-8 and
+    UTF-16 coded), in letter case, in a trailing blank — different keys, so different hashes"""
+    out = []
+    texts = [("Troms\u00f8", "Troms\u00f6"), ("\u6a2a\u6d5c01", "\u795e\u623801"), ("\u6a2a\u6d5c01", "01"), ("Kiel", "kiel"),
+             ("Kiel", "Kiel "), ("\u00e9", "e"), ("A\u0301", "\u00c1")]
+
+    def lau(t, enc):
+        b = t.encode("utf-8") if enc == 1 else t.encode("utf-16-le")
+        return bytes([len(b) + 2, enc]) + b
+    for d in db():
+        fs = d["Fields"]
+        ks = [i for i, f in enumerate(fs) if f.get("PartOfPrimaryKey") and f["FieldType"] == "STRING_LAU"]
+        if not ks:
+            continue
+        i = ks[0]
+        if not all("BitOffset" in f and f.get("BitLength") for f in fs[:i]):
+            continue
+        pre = sum(f["BitLength"] for f in fs[:i])
+        if pre % 8:
+            continue
+        head = _apply_match(d, 0).to_bytes(max(1, pre // 8), "little")[:pre // 8]
+        for a, b in texts:
+            for ea, eb in ((1, 1), (0, 0), (0, 1)):
+                pa = head + lau(a, ea) + bytes(8)
+                pb = head + lau(b, eb) + bytes(8)
+                out.append(({"pgn": d["PGN"], "payload": pa.hex()}, {"pgn": d["PGN"], "payload": pb.hex()}))
+    return out
+
+
 def search(ctx):
     rng = ctx.rng
     out, seen = [], set()
@@ -658,6 +688,8 @@ def search(ctx):
     for a, b in zip(some, some[1:]):
         emit(_check_pair(a, b))
     emit(_check_pair(*none_text_witness()))
+    for a, b in _lau_key_pairs():
+        emit(_check_pair(a, b))
     # definitions with SEVERAL key fields: the not-available pattern in one key field vs in another (same value in
     # the remaining one) — positions in the key must not be confused
     grp = {}
